@@ -50,9 +50,14 @@ func (u *Unit) floorDivMod(x *Term, c *big.Int) (q, r *Term) {
 		return u.newInt("q"), u.newInt("r")
 	}
 	x = u.name(x, "x")
+	key := x.S + "/" + c.String()
+	if e, ok := u.divMemo[key]; ok && u.S.Alive(e.scope) {
+		return e.q, e.r
+	}
 	q = u.newInt("q")
 	r = u.newInt("r")
 	u.assume(And(Eq(x, Add(Mul(BigLit(c), q), r)), Le(IntLit(0), r), Lt(r, BigLit(c))))
+	defer func() { u.divMemo[key] = divEntry{q, r, u.S.ScopeID()} }()
 	xl, xh := bounds(x)
 	var ql, qh *big.Int
 	if xl != nil {
